@@ -6,12 +6,12 @@
 //! block and writes every case with its logical result so the first differing case can be named.
 
 use crate::drive_dec::{BomMode, DecDriver, DecHistory, Sink};
-use crate::drive_enc::{EncDriver, Src};
+use crate::drive_enc::{EncDriver, EncHistory, Src};
 use crate::encs;
 use crate::fw::{self, Ctx, Tier};
 use crate::hist::{self, Profile};
 use crate::hist_enc::{self, EProfile};
-use crate::memchk::{MemRunner, ALL_FNS};
+use crate::memchk::{MemCase, MemRunner, ALL_FNS};
 use crate::memgen;
 use crate::model_dec::algo_for;
 use crate::valchk::{self, C14_FNS, C16_FNS};
@@ -285,6 +285,271 @@ fn jobs(ctx: &Ctx) -> Vec<Job> {
                 }),
             ));
         }
+    }
+    // ---- 5b. deterministic families added in the third validation round: uniform runs, two special
+    //          units in one stride, sequences straddling a block boundary, adjacent pairs
+    for enc in dencs.iter().cloned() {
+        for fam in 0..3usize {
+            jobs.push((
+                "dec-structured",
+                format!("{}:{}", enc.name(), ["uniform-runs", "two-units", "block-boundary"][fam]),
+                Box::new(move |acc: &mut Acc| {
+                    let algo = algo_for(enc);
+                    let is16 = matches!(algo, crate::model_dec::Algo::Utf16(_));
+                    let mut atoms: Vec<Vec<u8>> = hist::atoms(algo).into_iter().filter(|a| a.iter().any(|b| *b >= 0x80 || *b == 0x1B)).collect();
+                    if let crate::model_dec::Algo::Utf16(be) = algo {
+                        for u in [0x0100u16, 0x3000, 0x4E00, 0x7F00, 0x2000, 0xFF00] {
+                            atoms.push(if be { vec![(u >> 8) as u8, u as u8] } else { vec![u as u8, (u >> 8) as u8] });
+                        }
+                    }
+                    let ascii = |v: &mut Vec<u8>, n: usize, base: u8| {
+                        for i in 0..n {
+                            let c = base + (i % 26) as u8;
+                            match algo {
+                                crate::model_dec::Algo::Utf16(true) => v.extend_from_slice(&[0, c]),
+                                crate::model_dec::Algo::Utf16(false) => v.extend_from_slice(&[c, 0]),
+                                _ => v.push(c),
+                            }
+                        }
+                    };
+                    let mut drv = DecDriver::new();
+                    let mut run = |stream: &[u8], caps: Vec<usize>, sink: Sink, repl: bool, acc: &mut Acc| {
+                        let mut h = DecHistory::simple(enc, BomMode::None, sink, repl, stream);
+                        h.caps = caps;
+                        let out = drv.run(&h);
+                        let mut res: Vec<u8> = Vec::new();
+                        res.extend_from_slice(&out.out8);
+                        for u in &out.out16 {
+                            res.extend_from_slice(&u.to_le_bytes());
+                        }
+                        for cl in &out.calls {
+                            res.extend_from_slice(format!("|{:?},{},{},{}", cl.res, cl.read, cl.written, cl.flag).as_bytes());
+                        }
+                        for f in &out.faults {
+                            res.extend_from_slice(format!("!{:?}", f.kind).as_bytes());
+                        }
+                        acc.case(true, &res, || h.to_json().to_string());
+                    };
+                    let _ = is16;
+                    match fam {
+                        0 => {
+                            for a in &atoms {
+                                for p in [0usize, 3, 8] {
+                                    for k in [8usize, 15, 16, 17, 32, 33] {
+                                        let mut v = Vec::new();
+                                        ascii(&mut v, p, b'a');
+                                        for _ in 0..k {
+                                            v.extend_from_slice(a);
+                                        }
+                                        ascii(&mut v, 2, b'y');
+                                        for (sink, repl) in [(Sink::Utf8, true), (Sink::Utf16, false), (Sink::String, true)] {
+                                            for caps in [vec![], vec![sink.min_cap() + 1], vec![16], vec![24]] {
+                                                run(&v, caps, sink, repl, acc);
+                                            }
+                                        }
+                                    }
+                                }
+                            }
+                        }
+                        1 => {
+                            for (xi, x) in atoms.iter().enumerate().take(5) {
+                                for y in atoms.iter().skip(xi % 2).step_by(2).take(4) {
+                                    for p in [0usize, 5, 15, 16, 17, 31] {
+                                        for d in [1usize, 2, 7, 8, 9, 15, 16, 17, 32] {
+                                            let mut v = Vec::new();
+                                            ascii(&mut v, p, b'a');
+                                            v.extend_from_slice(x);
+                                            ascii(&mut v, d - 1, b'A');
+                                            v.extend_from_slice(y);
+                                            ascii(&mut v, 19, b'a');
+                                            run(&v, vec![], Sink::Utf8, true, acc);
+                                            run(&v, vec![p + d + 3], Sink::Utf16, false, acc);
+                                        }
+                                    }
+                                }
+                            }
+                        }
+                        _ => {
+                            for a in atoms.iter().take(5) {
+                                for block in [256usize, 1024, 4096] {
+                                    for j in 0..=4usize {
+                                        let mut v = Vec::new();
+                                        ascii(&mut v, if is16 { (block - j) / 2 } else { block - j }, b'a');
+                                        v.extend_from_slice(a);
+                                        ascii(&mut v, 4, b'w');
+                                        run(&v, vec![], Sink::Utf8, true, acc);
+                                        run(&v, vec![block / 2 + 3], Sink::Utf16, true, acc);
+                                        run(&v, vec![block + 1], Sink::Str, false, acc);
+                                    }
+                                }
+                            }
+                        }
+                    }
+                }),
+            ));
+        }
+    }
+    for enc in eencs.iter().cloned() {
+        jobs.push((
+            "enc-structured",
+            format!("{}:uniform-runs-and-blocks", enc.name()),
+            Box::new(move |acc: &mut Acc| {
+                let mut alpha: Vec<u32> = hist_enc::alphabet(enc).into_iter().filter(|c| *c >= 0x80).collect();
+                alpha.extend_from_slice(&[0xD800, 0xDC00]);
+                let mut drv = EncDriver::new();
+                let mut run = |text: &[u32], src: Src, repl: bool, caps: Vec<usize>, acc: &mut Acc| {
+                    let mut h = EncHistory::simple(enc, src, repl, text);
+                    h.caps = caps;
+                    let out = drv.run(&h);
+                    let mut res: Vec<u8> = out.out.clone();
+                    for cl in &out.calls {
+                        res.extend_from_slice(format!("|{:?},{},{},{},{}", cl.res, cl.read, cl.written, cl.flag, cl.pending_after).as_bytes());
+                    }
+                    for f in &out.faults {
+                        res.extend_from_slice(format!("!{:?}", f.kind).as_bytes());
+                    }
+                    acc.case(true, &res, || h.to_json().to_string());
+                };
+                for &x in &alpha {
+                    let sur = crate::drive_enc::is_sur(x);
+                    for p in [0usize, 3] {
+                        for k in [8usize, 15, 16, 17, 32, 33] {
+                            let mut text: Vec<u32> = (0..p).map(|i| 0x61 + i as u32).collect();
+                            for _ in 0..k {
+                                text.push(x);
+                            }
+                            text.push(0x7A);
+                            for repl in [false, true] {
+                                let m = if repl { 14 } else { 4 };
+                                for caps in [vec![], vec![m + 1], vec![16], vec![26]] {
+                                    if !sur {
+                                        run(&text, Src::Utf8, repl, caps.clone(), acc);
+                                    }
+                                    run(&text, Src::Utf16, repl, caps, acc);
+                                }
+                            }
+                        }
+                    }
+                    if !sur {
+                        for block in [256usize, 1024] {
+                            for j in 0..=3usize {
+                                let mut text: Vec<u32> = (0..block - j).map(|i| 0x20 + (i % 90) as u32).collect();
+                                text.push(x);
+                                text.extend_from_slice(&[0x74, 0x61]);
+                                run(&text, Src::Utf8, true, vec![block / 2 + 3], acc);
+                                run(&text, Src::Utf16, false, vec![], acc);
+                            }
+                        }
+                    }
+                }
+            }),
+        ));
+    }
+    for f in ALL_FNS.iter().cloned() {
+        jobs.push((
+            "mem-pairs",
+            f.name().to_string(),
+            Box::new(move |acc: &mut Acc| {
+                let mut rn = MemRunner::new();
+                let mut run = |src8: Vec<u8>, src16: Vec<u16>, k: usize, acc: &mut Acc| {
+                    let mut mc = MemCase { f, src8, src16, dst_len: 0, src_align: k & 7, dst_align: (k >> 3) & 7, fill: 0xA5 };
+                    mc.sanitise();
+                    let n = mc.src_len();
+                    mc.dst_len = if f.is_partial() { [f.sufficient(n), n, n.saturating_sub(1 + k % 5)][k % 3] } else { f.min_dst(n).unwrap_or(0) };
+                    let rr = rn.run(&mc);
+                    let mut res: Vec<u8> = Vec::new();
+                    match &rr.out {
+                        Some(o) => {
+                            for x in &o.ret {
+                                res.extend_from_slice(&x.to_le_bytes());
+                            }
+                            if !crate::memchk::reference(&mc).unspecified {
+                                res.extend_from_slice(&o.dst8);
+                                for u in &o.dst16 {
+                                    res.extend_from_slice(&u.to_le_bytes());
+                                }
+                            }
+                        }
+                        None => res.extend_from_slice(b"panic"),
+                    }
+                    acc.case(true, &res, || mc.to_json().to_string());
+                };
+                let mut k = 0usize;
+                match f.src_kind() {
+                    crate::memchk::SrcKind::U16 => {
+                        for &a in memgen::UNIT_EDGES16.iter() {
+                            for &b in memgen::UNIT_EDGES16.iter() {
+                                for &(p, d, t) in memgen::pair_layouts16().iter().step_by(3) {
+                                    k += 1;
+                                    run(vec![], memgen::embed_pair16(a, b, p, d, t), k, acc);
+                                }
+                            }
+                        }
+                        for &a in memgen::UNIT_EDGES16.iter() {
+                            for run_len in [8usize, 9, 16, 17, 24] {
+                                k += 1;
+                                let mut v: Vec<u16> = vec![0x61; 3];
+                                v.extend(std::iter::repeat(a).take(run_len));
+                                v.extend_from_slice(&[0x20, 0x20]);
+                                run(vec![], v, k, acc);
+                            }
+                        }
+                    }
+                    crate::memchk::SrcKind::Bytes | crate::memchk::SrcKind::Str => {
+                        let near = memgen::utf8_near_valid(false);
+                        let reps = memgen::utf8_valid_reps();
+                        for s in near.iter() {
+                            for a in reps.iter().step_by(3) {
+                                k += 1;
+                                let (pre, tail) = memgen::PAIR_EMBED[k % memgen::PAIR_EMBED.len()];
+                                run(if k % 2 == 0 { memgen::embed_pair8(a, s, pre, tail) } else { memgen::embed_pair8(s, a, pre, tail) }, vec![], k, acc);
+                            }
+                        }
+                    }
+                    _ => {}
+                }
+            }),
+        ));
+    }
+    for f in C14_FNS.iter().chain(C16_FNS.iter()).cloned() {
+        jobs.push((
+            "validator-pairs",
+            f.name().to_string(),
+            Box::new(move |acc: &mut Acc| {
+                let mut k = 0usize;
+                let mut run = |s8: Vec<u8>, s16: Vec<u16>, k: usize, acc: &mut Acc| {
+                    let mut vc = valchk::VCase { f, src8: s8, src16: s16, align: k & 15, force_scalar: false };
+                    vc.sanitise();
+                    let al = vc.align;
+                    let mut b8 = vec![0u8; al];
+                    b8.extend_from_slice(&vc.src8);
+                    let mut b16 = vec![0u16; al];
+                    b16.extend_from_slice(&vc.src16);
+                    let got = valchk::call(f, &b8[al..], &b16[al..]);
+                    acc.case(true, &got.to_le_bytes(), || vc.to_json().to_string());
+                };
+                if f.is_u16() {
+                    for &a in memgen::UNIT_EDGES16.iter() {
+                        for &b in memgen::UNIT_EDGES16.iter() {
+                            for &(p, d, t) in memgen::pair_layouts16().iter() {
+                                k += 1;
+                                run(vec![], memgen::embed_pair16(a, b, p, d, t), k, acc);
+                            }
+                        }
+                    }
+                } else {
+                    let near = memgen::utf8_near_valid(false);
+                    let reps = memgen::utf8_valid_reps();
+                    for s in near.iter() {
+                        for a in reps.iter() {
+                            k += 1;
+                            let (pre, tail) = memgen::PAIR_EMBED[k % memgen::PAIR_EMBED.len()];
+                            run(if k % 2 == 0 { memgen::embed_pair8(a, s, pre, tail) } else { memgen::embed_pair8(s, a, pre, tail) }, vec![], k, acc);
+                        }
+                    }
+                }
+            }),
+        ));
     }
     // ---- 6. UTF-8 inputs around and above the 64-byte SIMD-validator threshold through the
     //         validator, the UTF-8 decoder and the one-shot decode
